@@ -162,8 +162,10 @@ prop("C03",
 prop("C11",
      axioms="reals",
      design_ref="DESIGN.md section 5 C11",
-     technique="Rocq proof (sessions without OBD / without fresh readings convert; default predictor = linear interpolant; disabled = untouched) + in-Coq correspondence of every fix's OBD block",
-     text="Theorems about the port of Session.PredictOBD and gonum's PiecewiseLinear: logs with no OBD block or no fresh reading give Ok and unchanged records, "
+     technique="Rocq proof (PredictOBD for ANY fitted predictor: every row to fill gets the per-channel predictor's value at its time, every other row - all rows with fresh readings - is untouched, shape kept; sessions without OBD / without fresh readings convert; default predictor = linear interpolant; disabled = untouched) + in-Coq correspondence of every fix's OBD block, non-default gonum predictors through a fresh-fit oracle",
+     text="Theorems about the port of Session.PredictOBD and gonum's PiecewiseLinear: C11_predict_spec - for every session and every predictor function the rows filled are exactly the "
+          "GPS-updated rows with a stale reading, each channel receives the predictor fitted on that channel's fresh readings evaluated at the row's time, all other rows are "
+          "unchanged (C11_fresh_rows_untouched), laps/rows/durations keep their shape, fewer than two fresh readings change nothing; logs with no OBD block or no fresh reading give Ok and unchanged records, "
           "interpolation disabled leaves records untouched, the default predictor strictly between two knots is y_i + slope_i (x - x_i) with slope_i the neighbours' "
           "difference quotient, and at a knot the reading itself.  Tied to the code by comparing the OBD channels of every output fix (and the outcome class) on "
           "sessions with every kind of GPS/OBD update interleaving and channel subset.",
@@ -259,9 +261,10 @@ LT_NOTE = ("Trusted: Coq kernel + vm_compute; correspondence harness (reflective
 prop("C01",
      axioms="reals",
      design_ref="DESIGN.md section 5 C01",
-     technique="Rocq proof of the text round trip (all strings) and of the duration and date leaf round trips (all durations below 2^62 ns, all instants 1969-2068) + byte-exact in-Coq model of the encoder and of decode-after-encode checked against the real codec on generated databases; database-level round trip is PARTIAL (correspondence, not theorem)",
+     technique="Rocq proof of the document-level round trip (every value's bytes parse back to the printed element tree), of the text round trip (all strings) and of the duration and date leaf round trips (all durations below 2^62 ns, all instants 1969-2068) + byte-exact in-Coq model of the encoder and of decode-after-encode checked against the real codec on generated databases; database-level round trip is PARTIAL (correspondence, not theorem)",
      text="Proved: every text of valid XML characters survives escape -> line filter -> strict reader; integer-like leaves are fixed points; durations MM:SS.cc come back floored to 1/100 s for every 0 <= d < 2^62 (C01_duration_roundtrip, decimal print/scan inverse by induction) and are then fixed points; dates come back floored to 1 s / 1/100 s for every instant 1969-01-01..2068-12-31 (C01_date_roundtrip: calendar bijection swept over all 36525 days inside Coq, time of day by arithmetic); the faithful model exhibits D22 "
-          "(C01_reencode_omitempty_refuted).  Not proved as a theorem (partial): dec(enc v) = quant v and enc(quant v) = enc v for all databases - this is checked per generated "
+          "(C01_reencode_omitempty_refuted); C01_document_roundtrip: for every value the file parses back to exactly the printed element tree (nothing lost or reordered at the XML level).  "
+          "Not proved as a theorem (partial): the leaf-by-leaf part dec(enc v) = quant v for fixed decimals and enc(quant v) = enc v for all databases - this is checked per generated "
           "database: the model's encoder must produce the very bytes Encode wrote, Decode's value must equal the model's quant(v) leaf by leaf, the re-encoding must be identical, "
           "gzip must gunzip to the plain bytes and the windows-1252 transcoding must decode to the same value; the reflected xml-tag schema must equal the recorded one.",
      rule="one case = one database inside the round-trip domain: 0-3 laps (0-4 fixes each with optional acceleration/OBD/TPMS blocks, intermediates, videos, tags), 0-1 vehicle lists with "
@@ -274,8 +277,10 @@ prop("C01",
 prop("C13",
      axioms="reals",
      design_ref="DESIGN.md section 5 C13",
-     technique="Rocq proof (any text is recovered through the strict reader with invalid characters substituted; tab/LF literal; no raw '<'; declaration first) + every generated document is parsed by the Coq strict XML reader and must yield exactly the intended tree",
-     text="Proved for all texts (valid or not): escape + line filter gives per character the predefined entity / literal tab and LF / &#xD; / the character / U+FFFD, the strict reader "
+     technique="Rocq proof that for EVERY value the document written is accepted by the strict reader and parses to exactly the intended tree (C13_every_value_parses: induction over trees of any depth and width; line filter, indentation, tags, attributes, escaped text), any text is recovered with invalid characters substituted; tab/LF literal; no raw '<'; declaration first + every generated document is parsed by the Coq strict XML reader and must yield exactly the intended tree",
+     text="Proved for all values: lex (enc_text v) = Ok (cleaned (root_tree v)) whenever the field names are XML names (checked on every generated value, names come from the code's xml tags by reflection) - "
+          "the document (declaration, tab indentation, start/end tags, attributes, escaped text after the line filter) is well-formed for the strict reader and parses to the very tree that was printed, for any "
+          "nesting and any number of laps/fixes; the file form of the printed tree is characterised (C13_file_form).  Proved for all texts (valid or not): escape + line filter gives per character the predefined entity / literal tab and LF / &#xD; / the character / U+FFFD, the strict reader "
           "returns the cleaned text and stops at the next tag, no raw '<' is written, every document starts with the UTF-8 declaration.  Per generated document (also with control "
           "characters, U+FFFE, invalid UTF-8): the bytes Encode wrote must be accepted by the Coq strict reader (five entities, numeric references to valid characters only, matching "
           "tags, one root) and the parsed tree must equal the intended tree whose leaves are the model's field syntax; gzip output must be a complete stream of exactly those bytes.",
